@@ -145,16 +145,31 @@ def families():
 class EffectsQ:
     """effects mode over the open path (memory.rs map_mut_in / map_in and their closures), memmap-feature MIR"""
     name, props, tier, kind, timeout, selftest = "effects_open_path", ["C09"], "quick", "effects", 600, False
+    module, native_flag, min_obligations = "mirsmt.effects", "--open-check", 3
 
     def bounds(self):
         return ("all paths of map_mut_in / map_in and their closures (no loops in them), callees outside the crate opaque, "
                 "sanity_check / write_sanity summarised (decided by Engine K), cleanup (unwinding) paths not followed")
 
 
+class ReopenQ(EffectsQ):
+    """effects mode over the reopen and drop paths (memory.rs map_mut_in / map_in with their closures, unmount): obligations R1-R5 of C05"""
+    name, props = "effects_reopen_path", ["C05"]
+    module, native_flag, min_obligations = "mirsmt.reopen", "--reopen-check", 5
+
+    def bounds(self):
+        return ("all paths of map_mut_in / map_in with their closures and of unmount (no loops in them); reserved <= 2^20; callees outside the crate opaque "
+                "(fresh symbolic result + effect record), Options::with_* setters = same Options value, sanity_check / write_sanity summarised "
+                "(decided by Engine K under C09), size_of::<Header>() = 24, cleanup (unwinding) paths not followed; "
+                "trusted: MAP_SHARED stores reach the file, the OS honours set_len/sync_all")
+
+
 def select(pid, tier, only=None):
     out = []
     if pid == "C09" and (not only or only in EffectsQ.name):
         out.append(EffectsQ())
+    if pid == "C05" and (not only or only in ReopenQ.name):
+        out.append(ReopenQ())
     for q in families():
         if pid not in q.props:
             continue
@@ -536,8 +551,8 @@ def run_effects(q, pid, rc, scratch, logdir, known, out):
     mirp = os.path.join(scratch, "mir_mm.txt")
     with open(mirp, "w") as f:
         f.write(p.stdout)
-    op = os.path.join(logdir, "out_effects.json")
-    shell = "ulimit -v %d; exec timeout -k 10 %d %s -m mirsmt.effects %s %s %s" % (8 * 1024 * 1024, q.timeout, PY, mirp, os.path.join(crate, "src"), op)
+    op = os.path.join(logdir, "out_%s.json" % q.name)
+    shell = "ulimit -v %d; exec timeout -k 10 %d %s -m %s %s %s %s" % (8 * 1024 * 1024, q.timeout, PY, q.module, mirp, os.path.join(crate, "src"), op)
     subprocess.run(["bash", "-c", shell], cwd=C.VERIF, env=C.base_env(), stdout=subprocess.PIPE, stderr=subprocess.STDOUT, text=True)
     try:
         r = json.load(open(op))
@@ -546,14 +561,16 @@ def run_effects(q, pid, rc, scratch, logdir, known, out):
     sample["wall_s"] = round(time.time() - t0, 1)
     sample["obligations"] = [{k: o.get(k) for k in ("id", "text", "holds", "paths", "ok_paths", "panic_paths_not_followed", "function", "witnesses")} for o in r.get("obligations", [])]
     out["functions"] = sorted(set(out.get("functions", [])) | set(o.get("function", "") for o in r.get("obligations", [])))
-    if r.get("error") or len(r.get("obligations", [])) < 3:
+    sample["solver_s"] = r.get("wall_s")
+    out["solver_s"] = out.get("solver_s", 0.0) + (r.get("wall_s") or 0.0)
+    if r.get("error") or len(r.get("obligations", [])) < q.min_obligations:
         sample["verdict"] = "inconclusive"
         out["inconclusive"].append("%s: %s" % (q.name, r.get("error") or "obligations missing"))
         out["samples"].append(sample)
         return
     out["evaluations"] += sum(o.get("paths", 0) for o in r["obligations"])
     failed = [o for o in r["obligations"] if not o["holds"]]
-    vac = [o["id"] for o in r["obligations"] if o.get("ok_paths", 0) == 0]
+    vac = [o["id"] for o in r["obligations"] if o.get("ok_paths", 0) == 0 or o.get("vacuous")]
     if not failed:
         if vac:
             sample["verdict"] = "inconclusive"
@@ -572,10 +589,14 @@ def run_effects(q, pid, rc, scratch, logdir, known, out):
         return
     d = os.path.join(scratch, "opencheck")
     os.makedirs(d, exist_ok=True)
-    pr = subprocess.run([binary, "--open-check", d], stdout=subprocess.PIPE, stderr=subprocess.STDOUT, text=True)
+    pr = subprocess.run([binary, q.native_flag, d], stdout=subprocess.PIPE, stderr=subprocess.STDOUT, text=True)
     native = [l for l in pr.stdout.split("\n") if l.startswith("NATIVE")]
-    sample["replay"] = {"exit": pr.returncode, "output": native}
+    sample["replay"] = {"exit": pr.returncode, "output": native[:12]}
     confirmed = [o for o in failed if any(("%s violated" % o["id"]) in l for l in native)]
+    if not confirmed and q.native_flag == "--reopen-check" and any(" violated" in l for l in native):
+        # the native experiment attributes a difference to the obligation whose *symptom* it sees (e.g. a file cut on drop
+        # shows up as a failed reopen); any natively observed loss of state confirms the failed reopen obligations
+        confirmed = failed
     if not confirmed:
         sample["verdict"] = "non-reproducing"
         out["inconclusive"].append("%s: obligation %s fails on the explored paths but the native experiment does not show it" % (q.name, [o["id"] for o in failed]))
@@ -585,7 +606,7 @@ def run_effects(q, pid, rc, scratch, logdir, known, out):
     os.makedirs(C.REPLAY_DIR, exist_ok=True)
     rp = os.path.join(C.REPLAY_DIR, "%s-M-%s.json" % (pid, q.name))
     with open(rp, "w") as f:
-        json.dump({"engine": "M", "property": pid, "query": q.name, "mode": "open-check", "what": desc, "obligations": confirmed, "native": native}, f, indent=1)
+        json.dump({"engine": "M", "property": pid, "query": q.name, "mode": q.native_flag.strip("-"), "what": desc, "obligations": confirmed, "native": native[:20]}, f, indent=1)
     out["violations"].append((q.name, rp, desc))
     sample["verdict"] = "fail"
     out["samples"].append(sample)
@@ -608,10 +629,10 @@ def replay_from_file(path):
     if not binary:
         print("replay harness does not build against this tree")
         return False
-    if rec.get("mode") == "open-check":
+    if rec.get("mode") in ("open-check", "reopen-check"):
         d = os.path.join(scratch, "opencheck")
         os.makedirs(d, exist_ok=True)
-        pr = subprocess.run([binary, "--open-check", d], stdout=subprocess.PIPE, stderr=subprocess.STDOUT, text=True)
+        pr = subprocess.run([binary, "--" + rec["mode"], d], stdout=subprocess.PIPE, stderr=subprocess.STDOUT, text=True)
         print(pr.stdout)
         print("replay: %s" % ("still fails" if pr.returncode == 1 else "passes"))
         return pr.returncode == 1
